@@ -12,7 +12,7 @@
                                               _cleanup_server(); server = None
      web._run_app                             runner.setup() ; try: sites... sleep forever  finally: runner.cleanup()
 
-   The application tree is the constant Tree:
+   The application tree is chosen in Init (s.tree \in Trees):
      "one"     root R (contexts r1, r2) with one sub-application S (s1, s2)
      "two"     root R (r1) with two sibling sub-applications S (s1) and U (u1), added in that order
      "nested"  root R (r1) -> sub-application S (s1) -> sub-sub-application U (u1)
@@ -44,7 +44,9 @@
 EXTENDS Naturals, Sequences, FiniteSets, TLC
 
 CONSTANTS SetupInTry, UnfrozenCleansSubs, CleanupCollects, ShutdownContained, RunAppCatchesBase,
-          MaxStartFaults, Entries, Tree, KindsAllowed
+          MaxStartFaults, Entries, KindsAllowed,
+          Trees,                               \* subset of {"one", "two", "nested"}
+          ExtraTreeEntries, ExtraTreeKinds     \* entries / kinds explored for the trees other than "one"
 
 VARIABLE s
 vars == <<s>>
@@ -52,38 +54,41 @@ vars == <<s>>
 Root == "R"
 Range(q) == {q[i] : i \in 1..Len(q)}
 Count(q, x) == Cardinality({i \in 1..Len(q) : q[i] = x})
-Apps == IF Tree = "one" THEN {"R", "S"} ELSE {"R", "S", "U"}
-AppSeq == IF Tree = "one" THEN <<"R", "S">> ELSE <<"R", "S", "U">>       \* the tree in pre-order
-Subs == [a \in Apps |->
-           CASE Tree = "one" -> (IF a = "R" THEN <<"S">> ELSE <<>>)
-             [] Tree = "two" -> (IF a = "R" THEN <<"S", "U">> ELSE <<>>)
-             [] Tree = "nested" -> (IF a = "R" THEN <<"S">> ELSE IF a = "S" THEN <<"U">> ELSE <<>>)]
-Ctxs == [a \in Apps |->
-           IF Tree = "one" THEN (IF a = "R" THEN <<"r1", "r2">> ELSE <<"s1", "s2">>)
+AppsOf(tr) == IF tr = "one" THEN {"R", "S"} ELSE {"R", "S", "U"}
+AppSeqOf(tr) == IF tr = "one" THEN <<"R", "S">> ELSE <<"R", "S", "U">>       \* the tree in pre-order
+SubsOf(tr) == [a \in AppsOf(tr) |->
+           CASE tr = "one" -> (IF a = "R" THEN <<"S">> ELSE <<>>)
+             [] tr = "two" -> (IF a = "R" THEN <<"S", "U">> ELSE <<>>)
+             [] tr = "nested" -> (IF a = "R" THEN <<"S">> ELSE IF a = "S" THEN <<"U">> ELSE <<>>)]
+CtxsOf(tr) == [a \in AppsOf(tr) |->
+           IF tr = "one" THEN (IF a = "R" THEN <<"r1", "r2">> ELSE <<"s1", "s2">>)
            ELSE (IF a = "R" THEN <<"r1">> ELSE IF a = "S" THEN <<"s1">> ELSE <<"u1">>)]
-AllCtx == UNION {Range(Ctxs[a]) : a \in Apps}
-AppOf(c) == CHOOSE a \in Apps : c \in Range(Ctxs[a])
-HName == [a \in Apps |->
+AllCtxOf(tr) == UNION {Range(CtxsOf(tr)[a]) : a \in AppsOf(tr)}
+\* names are the same in every tree
+AppOf(c) == IF c \in {"r1", "r2"} THEN "R" ELSE IF c \in {"s1", "s2"} THEN "S" ELSE "U"
+HName == [a \in {"R", "S", "U"} |->
             CASE a = "R" -> [startup |-> "Rsu", shutdown |-> "Rsh", cleanup |-> "Rcl"]
               [] a = "S" -> [startup |-> "Ssu", shutdown |-> "Ssh", cleanup |-> "Scl"]
               [] a = "U" -> [startup |-> "Usu", shutdown |-> "Ush", cleanup |-> "Ucl"]]
-SuNames == {HName[a].startup : a \in Apps}
-ClNames == {HName[a].cleanup : a \in Apps}
-StartSteps == AllCtx \cup SuNames
-ShutSteps == {HName[a].shutdown : a \in Apps}
-CleanSteps == AllCtx \cup ClNames
+SuNames == {"Rsu", "Ssu", "Usu"}
+ClNames == {"Rcl", "Scl", "Ucl"}
+ShutNames == {"Rsh", "Ssh", "Ush"}
+SubCtx == {"s1", "s2", "u1"}                   \* contexts of the applications below the root
+StartStepsOf(tr) == AllCtxOf(tr) \cup {HName[a].startup : a \in AppsOf(tr)}
+ShutStepsOf(tr) == {HName[a].shutdown : a \in AppsOf(tr)}
+CleanStepsOf(tr) == AllCtxOf(tr) \cup {HName[a].cleanup : a \in AppsOf(tr)}
 AllEntries == {"Runner", "RunnerNoExplicitCleanup", "RunApp"}
 
 (* ------------------------------------------------------------------------------ *)
 Frame(k, sig, app, i) == [k |-> k, sig |-> sig, app |-> app, i |-> i, errs |-> 0]
 
 Kinds == KindsAllowed            \* subset of {"exc", "base"}
-InitState(e, fs, sf, fh, fc, sk, ck) ==
-    [entry |-> e, failStart |-> fs, siteFails |-> sf, failShut |-> fh, failClean |-> fc,
+InitState(tr, e, fs, sf, fh, fc, sk, ck) ==
+    [tree |-> tr, entry |-> e, failStart |-> fs, siteFails |-> sf, failShut |-> fh, failClean |-> fc,
      startKind |-> sk, cleanKind |-> ck,
      stack |-> <<>>, raising |-> FALSE,
-     exits |-> [a \in Apps |-> <<>>],                      \* CleanupContext._exits
-     frozen |-> [a \in Apps |-> a # Root],                \* on_cleanup.frozen (add_subapp pre-freezes the sub-app)
+     exits |-> [a \in AppsOf(tr) |-> <<>>],                      \* CleanupContext._exits
+     frozen |-> [a \in AppsOf(tr) |-> a # Root],                \* on_cleanup.frozen (add_subapp pre-freezes the sub-app)
      server |-> FALSE,                                    \* runner._server is set
      sites |-> FALSE,                                     \* a site is registered with the runner
      top |-> "init",                                      \* program counter of the entry point
@@ -92,16 +97,17 @@ InitState(e, fs, sf, fh, fc, sk, ck) ==
      setupRes |-> "none", cleanupRes |-> "none", cleanupCalled |-> FALSE, result |-> "none"]
 
 Init ==
-    \E e \in Entries, fs \in SUBSET StartSteps, sf \in BOOLEAN,
-       fh \in SUBSET ShutSteps, fc \in SUBSET CleanSteps, sk \in Kinds, ck \in Kinds :
+    \E tr \in Trees : \E e \in Entries, fs \in SUBSET StartStepsOf(tr), sf \in BOOLEAN,
+       fh \in SUBSET ShutStepsOf(tr), fc \in SUBSET CleanStepsOf(tr), sk \in Kinds, ck \in Kinds :
         /\ Cardinality(fs) <= MaxStartFaults
+        /\ tr # "one" => (e \in ExtraTreeEntries /\ sk \in ExtraTreeKinds /\ ck \in ExtraTreeKinds)
         \* the kind only matters when something fails; the two "base" kinds are not crossed
         /\ fs = {} => sk = "exc"
         /\ (fh \cup fc) = {} => ck = "exc"
         /\ sk = "base" => ck = "exc"
         \* after a failed start-up there is no server: no site is started, on_shutdown is not sent
         /\ fs # {} => (~sf /\ fh = {})
-        /\ s = InitState(e, fs, sf, fh, fc, sk, ck)
+        /\ s = InitState(tr, e, fs, sf, fh, fc, sk, ck)
 
 (* ------------------------------------------------------------------------------ *)
 Top(st) == st.stack[Len(st.stack)]
@@ -111,18 +117,18 @@ Ev(k, n) == <<k, n>>
 
 \* receivers of a signal, in registration order (Application.__init__, user code, add_subapp)
 Rcv(k, n) == [k |-> k, n |-> n]
-Chain(a) == [j \in 1..Len(Subs[a]) |-> Rcv("chain", Subs[a][j])]
-Receivers(sig, a) ==
-    CASE sig = "startup"  -> <<Rcv("ctxstart", a), Rcv("h", HName[a].startup)>> \o Chain(a)
-      [] sig = "shutdown" -> <<Rcv("h", HName[a].shutdown)>> \o Chain(a)
-      [] sig = "cleanup"  -> <<Rcv("ctxclean", a), Rcv("h", HName[a].cleanup)>> \o Chain(a)
+Chain(tr, a) == [j \in 1..Len(SubsOf(tr)[a]) |-> Rcv("chain", SubsOf(tr)[a][j])]
+Receivers(tr, sig, a) ==
+    CASE sig = "startup"  -> <<Rcv("ctxstart", a), Rcv("h", HName[a].startup)>> \o Chain(tr, a)
+      [] sig = "shutdown" -> <<Rcv("h", HName[a].shutdown)>> \o Chain(tr, a)
+      [] sig = "cleanup"  -> <<Rcv("ctxclean", a), Rcv("h", HName[a].cleanup)>> \o Chain(tr, a)
 FailSet(sig, st) ==
     CASE sig = "startup" -> st.failStart [] sig = "shutdown" -> st.failShut [] sig = "cleanup" -> st.failClean
 
 \* aiosignal.Signal.send: `for receiver in self: await receiver(*args)`
 SendNext(st) ==
     LET f == Top(st)
-        rc == Receivers(f.sig, f.app)
+        rc == Receivers(st.tree, f.sig, f.app)
     IN IF f.i > Len(rc)
        THEN [st EXCEPT !.stack = Popped(st), !.raising = f.errs > 0]     \* errs > 0 only when CleanupCollects
        ELSE LET r == rc[f.i]
@@ -144,7 +150,7 @@ SendNext(st) ==
 \* CleanupContext._on_startup: `await ctx.__aenter__(); self._exits.append(ctx)`
 CtxStartNext(st) ==
     LET f == Top(st)
-        cs == Ctxs[f.app]
+        cs == CtxsOf(st.tree)[f.app]
     IN IF f.i > Len(cs) THEN [st EXCEPT !.stack = Popped(st)]
        ELSE LET c == cs[f.i] IN
             IF c \in st.failStart
@@ -170,9 +176,9 @@ CtxCleanNext(st) ==
 \* ideal replacement of Application.cleanup()'s unfrozen branch: the contexts of every app of the tree
 AppCleanupNext(st) ==
     LET f == Top(st) IN
-    IF f.i > Len(AppSeq) THEN [st EXCEPT !.stack = Popped(st), !.raising = f.errs > 0]
+    IF f.i > Len(AppSeqOf(st.tree)) THEN [st EXCEPT !.stack = Popped(st), !.raising = f.errs > 0]
     ELSE [st EXCEPT !.stack = Append(WithTop(st, [f EXCEPT !.i = @ + 1]),
-                                     Frame("ctxclean", "", AppSeq[f.i], Len(st.exits[AppSeq[f.i]])))]
+                                     Frame("ctxclean", "", AppSeqOf(st.tree)[f.i], Len(st.exits[AppSeqOf(st.tree)[f.i]])))]
 
 \* AppRunner.setup -> _make_server
 SetupNext(st) ==
@@ -180,7 +186,7 @@ SetupNext(st) ==
     IF f.i = 1          \* self._app.on_startup.freeze(); await self._app.startup()
     THEN [st EXCEPT !.stack = Append(WithTop(st, [f EXCEPT !.i = 2]), Frame("send", "startup", Root, 1))]
     ELSE                \* self._app.freeze(); return Server(...)
-         [st EXCEPT !.frozen = [a \in Apps |-> TRUE], !.server = TRUE, !.stack = Popped(st)]
+         [st EXCEPT !.frozen = [a \in AppsOf(st.tree) |-> TRUE], !.server = TRUE, !.stack = Popped(st)]
 
 \* BaseRunner.cleanup
 RunnerCleanupNext(st) ==
@@ -282,12 +288,12 @@ Pos(q, x) == CHOOSE i \in 1..Len(q) : q[i] = x
 \* somebody had the duty to run the cleanup: the library itself (run_app), or the caller did call it
 CleanupOwed(st) == st.entry = "RunApp" \/ st.cleanupCalled
 
-ExactlyOnce(st) == \A c \in AllCtx : Count(st.exited, c) = (IF c \in Entered(st) THEN 1 ELSE 0)
+ExactlyOnce(st) == \A c \in AllCtxOf(st.tree) : Count(st.exited, c) = (IF c \in Entered(st) THEN 1 ELSE 0)
 
 ExactlyOnceIffStarted == (Finished(s) /\ CleanupOwed(s)) => ExactlyOnce(s)
 
 \* at every moment: exit code never runs for a context whose start-up did not complete, never twice
-NeverExitUnstarted == \A c \in AllCtx : Count(s.exited, c) <= (IF c \in Entered(s) THEN 1 ELSE 0)
+NeverExitUnstarted == \A c \in AllCtxOf(s.tree) : Count(s.exited, c) <= (IF c \in Entered(s) THEN 1 ELSE 0)
 
 \* per application, exits happen in the reverse order of the (completed) enters
 ReverseOrder ==
@@ -305,13 +311,12 @@ ErrorsSurface ==
 
 (* The four ways in which the code as it is misses the property; each is the observable
    shape of one deviation constant.  AsCodedExplained: nothing else goes wrong.            *)
-SubCtx == {c \in AllCtx : AppOf(c) # Root}
 Dev_RunAppStartupFailureSkipsCleanup(st) ==
     st.entry = "RunApp" /\ st.setupRes = "raised" /\ ~st.cleanupCalled /\ Missing(st) # {}
 Dev_SubAppContextNotExitedAfterFailedStartup(st) ==
     st.setupRes = "raised" /\ st.cleanupCalled /\ Missing(st) # {} /\ Missing(st) \subseteq SubCtx
 Dev_ShutdownHandlerErrorSkipsCleanup(st) ==
-    /\ st.setupRes = "ok" /\ \E x \in st.failed : x[1] = "call" /\ x[2] \in ShutSteps
+    /\ st.setupRes = "ok" /\ \E x \in st.failed : x[1] = "call" /\ x[2] \in ShutNames
     /\ st.exited = <<>> /\ Missing(st) # {}
 Dev_CleanupErrorSkipsLaterExits(st) ==
     /\ st.setupRes = "ok" /\ \E x \in st.failed : x[1] = "exit" \/ (x[1] = "call" /\ x[2] \in ClNames)
